@@ -264,6 +264,17 @@ def cases(ctx):
         for scope in (0, src, 32, 128):
             ecs = struct.pack("!HBB", family, src, scope) + b"\xff" * ((src + 7) // 8)
             yield "parse:option-checks", [2, opt_wire([[8, ecs]]), None, 16]
+    # REPORTCHANNEL: the agent domain is read with the message parser (pointers into the message are followed,
+    # the option must end where the name ends) and rendered uncompressed, case kept
+    qhead = struct.pack("!HHHHHH", 80, 0x8000, 1, 0, 0, 1) + b"\x03Www\x07example\x00" + struct.pack("!HH", 1, 1)
+    def rc_wire(data, more=b""):
+        rd = struct.pack("!HH", 18, len(data)) + data + more
+        return qhead + b"\x00" + struct.pack("!HHIH", g.OPT, 1232, 0, len(rd)) + rd
+    for data in (b"\x05agent\x07Example\x00", b"\x00", b"\x05agent\xc0\x10", b"\xc0\x0c", b"\x05agent\xc0\x0c\x00", b"\x05agent",
+                 b"", b"\x05agent\x00\x00", b"\x45agent\x00", b"\xc0\x30", b"\x05agent\xc0\x31", b"\x3f" + b"a" * 63 + b"\x00",
+                 (b"\x3f" + b"a" * 63) * 4 + b"\x00", (b"\x3f" + b"a" * 63) * 3 + b"\x3d" + b"b" * 61 + b"\x00", b"\x01a\x80\x00"):
+        yield "parse:option-checks", [2, rc_wire(data), None, 16]
+        yield "parse:option-checks", [2, rc_wire(data, struct.pack("!HH", 3, 2) + b"id"), None, 16]
     for i in range(ctx.n(60, 600)):
         ol = [g.gen_special_option(rng, valid=rng.random() < 0.5) for _ in range(rng.choice([1, 1, 2, 3]))]
         if rng.random() < 0.2:
@@ -643,7 +654,7 @@ def extra(ctx):
 
     def table(name):
         m = re.search(name + r" : list Z :=\s*\[([^\]]*)\]", src)
-        return sorted(int(x) for x in m.group(1).replace("\n", " ").split(";"))
+        return sorted(int(x) for x in m.group(1).replace("\n", " ").split(";") if x.strip())
 
     import lib
 
